@@ -738,12 +738,20 @@ func typedRewrites(fset *token.FileSet, f *ast.File, info *types.Info, ed *edito
 						ed.replace(off(x.Pos()), off(x.End()), rtImportName+".WGAdd("+syncKey(sel)+", -1)")
 					}
 				case "Range":
-					report.ReflectMap = append(report.ReflectMap, where(x)+" sync.Map.Range")
+					// sync.Map.Range visits in Go's randomised map order: behind the map-order seam
+					if strings.Contains(recvTypeName(sel), "sync.Map") && len(x.Args) == 1 {
+						report.MapRanges = append(report.MapRanges, where(x)+" sync.Map.Range")
+						ed.replace(off(x.Pos()), off(x.Lparen)+1, rtImportName+".SyncMapRange("+syncKey(sel)+", ")
+					} else {
+						report.ReflectMap = append(report.ReflectMap, where(x)+" sync.Map.Range")
+					}
 				}
 				if sel, ok := x.Fun.(*ast.SelectorExpr); ok {
-					if s := info.Selections[sel]; s != nil && s.Obj() != nil && s.Obj().Pkg() != nil && s.Obj().Pkg().Path() == "reflect" {
-						if s.Obj().Name() == "MapRange" || s.Obj().Name() == "MapKeys" {
-							report.ReflectMap = append(report.ReflectMap, where(x)+" reflect."+s.Obj().Name())
+					if s := info.Selections[sel]; s != nil && s.Obj() != nil && s.Obj().Pkg() != nil && s.Obj().Pkg().Path() == "reflect" && len(x.Args) == 0 {
+						if nm := s.Obj().Name(); (nm == "MapRange" || nm == "MapKeys") && strings.HasSuffix(recvTypeName(sel), "reflect.Value") {
+							// reflect's map iteration is randomised as well
+							report.MapRanges = append(report.MapRanges, where(x)+" reflect."+nm)
+							ed.replace(off(x.Pos()), off(x.End()), rtImportName+".Reflect"+nm+"("+text(sel.X)+")")
 						}
 					}
 				}
@@ -1780,6 +1788,100 @@ func MapPairsSI(m map[string]interface{}) []PairSI {
 
 type Pair struct {
 	K, V interface{}
+}
+
+// SyncMapRange: sync.Map.Range over a snapshot in the seam's order.
+func SyncMapRange(m *sync.Map, f func(k, v interface{}) bool) {
+	tmp := map[interface{}]interface{}{}
+	m.Range(func(k, v interface{}) bool { tmp[k] = v; return true })
+	for _, p := range MapPairs(tmp) {
+		if _, still := m.Load(p.K); !still {
+			continue
+		}
+		if !f(p.K, p.V) {
+			return
+		}
+	}
+}
+
+func orderedKeys(rv reflect.Value) []reflect.Value {
+	ks := rv.MapKeys()
+	if len(ks) < 2 {
+		return ks
+	}
+	type ent struct {
+		s string
+		k reflect.Value
+	}
+	ents := make([]ent, len(ks))
+	for i, k := range ks {
+		s := ""
+		if k.CanInterface() {
+			s = fmt.Sprintf("%v", k.Interface())
+		} else {
+			s = fmt.Sprintf("%v", k)
+		}
+		ents[i] = ent{s, k}
+	}
+	sort.SliceStable(ents, func(i, j int) bool { return ents[i].s < ents[j].s })
+	if f := MapOrder; f != nil {
+		names := make([]string, len(ents))
+		idx := map[string][]int{}
+		for i, e := range ents {
+			names[i] = e.s
+			idx[e.s] = append(idx[e.s], i)
+		}
+		f(names)
+		re := make([]ent, 0, len(ents))
+		for _, nme := range names {
+			l := idx[nme]
+			if len(l) == 0 {
+				continue
+			}
+			re = append(re, ents[l[0]])
+			idx[nme] = l[1:]
+		}
+		if len(re) == len(ents) {
+			ents = re
+		}
+	}
+	for i, e := range ents {
+		ks[i] = e.k
+	}
+	return ks
+}
+
+// ReflectMapKeys: reflect.Value.MapKeys in the seam's order.
+func ReflectMapKeys(rv reflect.Value) []reflect.Value { return orderedKeys(rv) }
+
+// MapIter stands in for *reflect.MapIter (Next / Key / Value) in the seam's order.
+type MapIter struct {
+	m    reflect.Value
+	keys []reflect.Value
+	i    int
+}
+
+func ReflectMapRange(rv reflect.Value) *MapIter {
+	if rv.Kind() != reflect.Map {
+		rv.MapRange() // panics the way reflect does
+	}
+	return &MapIter{m: rv, keys: orderedKeys(rv), i: -1}
+}
+
+func (it *MapIter) Next() bool {
+	for it.i+1 < len(it.keys) {
+		it.i++
+		if it.m.MapIndex(it.keys[it.i]).IsValid() {
+			return true
+		}
+	}
+	it.i = len(it.keys)
+	return false
+}
+func (it *MapIter) Key() reflect.Value   { return it.keys[it.i] }
+func (it *MapIter) Value() reflect.Value { return it.m.MapIndex(it.keys[it.i]) }
+func (it *MapIter) Reset(rv reflect.Value) {
+	it.m, it.keys, it.i = rv, orderedKeys(rv), -1
 }
 
 func MapPairs(m interface{}) []Pair {
